@@ -275,14 +275,14 @@ func (e *C05) Run(c *core.Ctx, idx int) {
 			c.Rec.Eval(1)
 		}
 	}
-	if len(e.golden) > 20000 {
-		e.golden = map[string]string{}
-	}
 	gold := map[string]string{}
 	for _, gs := range calls {
 		for _, cl := range gs {
 			gold[cl.key] = e.golden[cl.key]
 		}
+	}
+	if len(e.golden) > 20000 { // bound the cache (after this round's goldens were taken from it)
+		e.golden = map[string]string{}
 	}
 	// the round
 	resetAll()
